@@ -80,10 +80,11 @@ PROPS = {
         "scenarios": lambda tier, q: [
             {"name": "registry", "args": ["__PID__"]},
             {"name": "run", "args": []},
+            {"name": "runt", "args": []},
         ],
         "signature": lambda req: "run " + (req.split(" ) ")[1].split(" ")[0] if " ) " in req else "?")[:20],
         "rule": "RAND-free, id-free programs (token grammar incl. EXEC.Y divergence and list explosion) on generated states, eval_push_limit in {-1,0,1,2,3,5,10,40,200,m-1,m,m+1}, growth_cap in {0,1,2,3,5,8,500}: PushInterpreter::run on one state, the documented accounting by repeated step() calls on an identical second state; outcome, step count and final state compared with each other and with the model; non-trivial = at least one step executed",
-        "assumptions": ["wall-clock: the model has an abstract clock; eval_time_limit is set to 10 minutes so TimeLimitExceeded cannot occur in the scenario (runtime behaviour, not exhibited by the model)"],
+        "assumptions": ["wall-clock: the model has an abstract clock (theorems hold for every clock). In the `run` scenario eval_time_limit is 10 minutes so TimeLimitExceeded cannot occur; the `runt` scenario reaches the limit (0 ms, and 1-5 ms on a diverging program): the reported run must be the model's run under the clock that is past the limit exactly at the iteration the implementation stopped at, and TimeLimitExceeded must not be reported before the measured wall-clock time reaches the limit"],
     },
     "C06": {
         "scenarios": lambda tier, q: [
@@ -99,7 +100,7 @@ PROPS = {
     "C07": {
         "scenarios": lambda tier, q: [
             {"name": "registry", "args": ["__PID__"]},
-            {"name": "steps", "args": ["*.DEFINE,NAME.QUOTE,CODE.DEFINITION,NAME.DUP,CODE.QUOTE,!clean"]},
+            {"name": "steps", "args": ["*.DEFINE,NAME.QUOTE,CODE.DEFINITION,NAME.DUP,NAME.,CODE.QUOTE,!clean"]},
             {"name": "exec", "args": [exact(q("scope C07")), "400" if tier == "quick" else "4000"]},
         ],
         "signature": lambda req: sig_exec(req) if req.startswith("( exec") else "step " + req[req.find(" ) ( ") :][:0],
@@ -129,10 +130,11 @@ PROPS = {
         "scenarios": lambda tier, q: [
             {"name": "registry", "args": ["__PID__"]},
             {"name": "roundtrip", "args": []},
+            {"name": "fsweep", "args": []},
         ],
-        "signature": lambda req: "roundtrip",
+        "signature": lambda req: "fsweep" if req.startswith("( fsweep") else "roundtrip",
         "rule": "item trees over {list, int (boundary pool + random), bool, registered instruction, parser-producible and odd names} (exact class), the same plus floats incl. non-finite, subnormal and boundary values (print-parse-print class), arbitrary items, and trees emitted by CodeGenerator::random_code: Item::to_string compared with the model's print, the text parsed back by the real parser and by the model, parse(print t) = t resp. print(parse(print t)) = print t evaluated on the implementation's own outcome (its reparse and its own print of the reparse); non-trivial = the item is in one of the two round-trip classes",
-        "assumptions": ["white-space splitting of the printed text, and the round trip of every i32 / boolean / registered instruction leaf, are Lean theorems (tok_show, int_roundtrip, instr_leafRT, parse_print_registry); that a single float, vector literal or name prints as one word and classifies back to itself (FloatPrintStable: fmt3 (parse (fmt3 x)) = fmt3 x) is a per-leaf hypothesis about std formatting, validated on every generated tree by the correspondence check"],
+        "assumptions": ["white-space splitting of the printed text, and the round trip of every i32 / boolean / registered instruction leaf, are Lean theorems (tok_show, int_roundtrip, instr_leafRT, parse_print_registry); that a single float, vector literal or name prints as one word and classifies back to itself (FloatPrintStable: fmt3 (parse (fmt3 x)) = fmt3 x) is a per-leaf hypothesis about std formatting, validated on every generated tree by the correspondence check and ENUMERATED by the fsweep scenario: every 1024th f32 bit pattern plus windows around all powers of two and ten in the quick tier, all 2^32 bit patterns in the thorough tier (a test, labelled as such)"],
     },
     "C09": {
         "scenarios": lambda tier, q: [
@@ -218,9 +220,10 @@ PROPS = {
             {"name": "registry", "args": ["__PID__"]},
             {"name": "growth", "args": []},
             {"name": "exec", "args": ["*", "100" if tier == "quick" else "1000"]},
+            {"name": "steps", "args": ["*.DEFINE,NAME.,EXEC.,CODE.,!c15"]},
         ],
         "signature": lambda req: "growth" if req.startswith("( growth") else sig_exec(req),
-        "rule": "every registered instruction by NAME on generated states (size-like operands up to the envelope cap of 2000, negative and extreme elsewhere): the weight of the state (points, vector elements, characters, queue and graph contents) after the step against a bound that depends only on the weight before; five structure-doubling programs (DUP + LIST / APPEND / CONS under EXEC.Y) stepped 10..45 (thorough ..70) times under the default limits: largest CODE / EXEC item against max_points_in_program; non-trivial = the state changed",
+        "rule": "every registered instruction by NAME on generated states (size-like operands up to the envelope cap of 2000, negative and extreme elsewhere): the weight of the state (points, vector elements, characters, queue and graph contents) after the step against a bound that depends only on the weight before; five structure-doubling programs (DUP + LIST / APPEND / CONS under EXEC.Y) stepped 10..45 (thorough ..70) times under the default limits: largest CODE / EXEC item against max_points_in_program; programs dense in names, definitions and EXEC / CODE combinators single-stepped on states whose binding tables hold aliases (a name bound to a name, to itself, in a ring): every step - a literal, a list, a name, an instruction - must return (stall watchdog) and stay inside the weight bound; non-trivial = the state changed",
         "assumptions": ["PARTIAL: wall-clock time and allocator behaviour of a step are runtime behaviour; the model measures growth of the state, which bounds the memory a step retains", "operands above the envelope cap are not executed (they would exhaust the host: that is finding K05 itself)"],
     },
     "C10": {
